@@ -325,7 +325,10 @@ def t_evict(ctx):
                       ev=ae.ev, got=(sn['status'], sn['signal']), why='an (evicted) child awaited inside the handler came back unprocessed')
 
 
-TEMPLATES = {'k.cleanup_real': t_cleanup_real, 'k.cleanup': t_cleanup, 'k.dispatch_step': t_dispatch_step, 's1.evict': t_evict}
+from ..scenlib import t_tree
+from .. import scenlib as S
+from ._common import mk
+TEMPLATES = {'tree': t_tree, 'k.cleanup_real': t_cleanup_real, 'k.cleanup': t_cleanup, 'k.dispatch_step': t_dispatch_step, 's1.evict': t_evict}
 
 
 def jobs(tier):
@@ -352,4 +355,5 @@ def jobs(tier):
         out.append(Job('C13', 's1.evict', t_evict, dict(N=N, child_handler=True, await_oldest=True, bmax=4 if tier == 'quick' else 7)))
     for N in (1, 2, 3):
         out.append(Job('C13', 's1.evict', t_evict, dict(N=N, child_handler=True, redispatch_old=True, bmax=N - 1 if N > 1 else 0, awaited=2)))
+    out += mk('C13', 'forwarded_event_between_handlers_small_history', S.forwarded_event_between_handlers_small_history(), witnesses=('history trimmed',))
     return out
